@@ -392,11 +392,10 @@ Proof.
       { unfold v. rewrite f_sval_mag, Hneg. pose proof (f_mag_nonneg C b HC Hb).
         destruct (Z.eq_dec (f_mag C b) 0) as [E|E]; [|lia]. exfalso. apply Hne. rewrite Hv1.
         unfold v. rewrite f_sval_mag, Hneg, E. cbn. reflexivity. }
-      pose proof (Z.quot_rem' v Q) as Hqr. pose proof (Z.rem_bound_neg v Q ltac:(lia) ltac:(lia)) as Hrb.
-      rewrite Z.abs_eq in Hrb by lia.
+      pose proof (Z.quot_rem' v Q) as Hqr. pose proof (Z.rem_bound_pos_neg v Q ltac:(lia) ltac:(lia)) as Hrb.
       assert (Hrem : Z.rem v Q <> 0) by (intro E; apply Hne; rewrite Hv1; lia).
       set (q := - Z.quot v Q) in *.
-      assert (Hq0 : 0 <= q) by (unfold q; pose proof (Z.quot_neg_nonpos v Q); nia).
+      assert (Hq0 : 0 <= q) by (unfold q; nia).
       (* |v| < 2^mbits * 2^e with fraction bits, so q < 2^(mbits-1) *)
       assert (Hqb : q < 2 ^ (mbits C - 1)).
       { pose proof (f_man_bound C b HC) as Hman. pose proof (f_exp_bound C b HC Hb) as He.
